@@ -990,7 +990,7 @@ int NinjaMain::ToolClean(const Options* options, int argc, char* argv[]) {
 
 int NinjaMain::ToolCleanDead(const Options* options, int argc, char* argv[]) {
   Cleaner cleaner(&state_, config_, &disk_interface_);
-  return cleaner.CleanDead(build_log_.entries());
+  return cleaner.CleanDead(build_log_.entries(), &deps_log_);
 }
 
 enum EvaluateCommandMode {
